@@ -285,8 +285,11 @@ def check(pid, tier):
     ev = {"property_id": pid, "tier": tier, "seed": seed, "level": "proof", "coverage": cov,
           "assumptions": prop.get("assumptions", []), "wall_s": round(wall, 2),
           "violations": len(res.violations) + (1 if exit_code and not res.violations else 0)}
-    os.makedirs(os.path.join(ROOT, "evidence"), exist_ok=True)
-    json.dump(ev, open(os.path.join(ROOT, "evidence", pid + ".json"), "w"), indent=1)
+    # evidence of a run against another tree than /repo (VERIF_REPO: seeded changes in scratch worktrees) is kept apart, so that
+    # evidence/ always describes /repo
+    evdir = os.path.join(ROOT, "evidence") if B.REPO == "/repo" else os.path.join(ROOT, "build", "evidence-other-tree")
+    os.makedirs(evdir, exist_ok=True)
+    json.dump(ev, open(os.path.join(evdir, pid + ".json"), "w"), indent=1)
     log("%s %s: %d scenarios, %d non-trivial distinct, %d/%d obligations, %d violations, %d corr, %.1fs"
         % (pid, tier, res.evaluations, len(res.nontrivial), au["discharged"], au["obligations"], len(res.violations), len(res.corr), wall))
     return exit_code
